@@ -65,9 +65,13 @@ def _run(kind, b, t, n, seed=3, nchains=2, idx=1):
     m = CountMCMC() if kind == "mcmc" else CountVI()
     m.nobs = (0, 7, 1)[(b + t + n) % 3]          # with and without data: the schedule does not depend on it
     h = ThetaHolder(n_thetas=n)
-    st, r = outcome(sampling.sample, m, h, seed, n_chains=nchains, chain_index=idx, n_burnin=b, thin=t)
+    # every other configuration with the progress bar switched on (what train_model --progress does): the schedule does not depend on it
+    bar = (b + 2 * t + n) % 2 == 1
+    import contextlib, io
+    with contextlib.redirect_stderr(io.StringIO()):
+        st, r = outcome(sampling.sample, m, h, seed, n_chains=nchains, chain_index=idx, n_burnin=b, thin=t, progress_bar=bar)
     ev = list(m.log)
-    tr = {"what": "run", "kind": kind, "b": b, "t": t, "n": n, "events": ev, "streams": []}
+    tr = {"what": "run", "kind": kind, "b": b, "t": t, "n": n, "events": ev, "streams": [], "progress_bar": bar}
     if st != "ok":
         tr["raised"] = r
         return tr, m
